@@ -6,7 +6,9 @@ ROOT="$(cd "$(dirname "${BASH_SOURCE[0]}")/.." && pwd)"
 if [ -n "$(git -C /repo status --porcelain)" ]; then echo "/repo is dirty, refusing"; exit 2; fi
 trap 'git -C /repo checkout -- . 2>/dev/null; git -C /repo clean -fdq -- src 2>/dev/null' EXIT
 bad=0
+PAT="${1:-}"
 for p in "$ROOT"/sensitivity/benign/*.diff; do
+  case "$p" in *"$PAT"*) ;; *) continue;; esac
   name=$(basename "$p" .diff); prop=${name%%-*}
   if ! git -C /repo apply "$p" 2>/dev/null; then echo "SKIP   $name (patch does not apply)"; continue; fi
   if (cd /repo && cargo test --workspace --offline >/dev/null 2>&1 && cargo test --offline --all-features >/dev/null 2>&1); then tests=pass; else tests=FAIL; fi
